@@ -132,7 +132,23 @@ func exec(e *lp.Exec) {
 			t0 := time.Now()
 			r := s.Feed(seg)
 			if d := time.Since(t0); d > 2*time.Second {
-				e.Oracle("c08-slow", "Parse took %v on %d bytes", d, len(seg))
+				// wall-clock oracle: one-sided, and re-run three times on a fresh parser before reporting (a loaded
+				// machine can stall any single call); a hang proper is caught by the executor's timeout
+				slow := true
+				for try := 0; try < 3 && slow; try++ {
+					w := hx.NewSess(s.Client, s.MaxBody, s.Limit)
+					for _, sg := range segs[:len(segs)-1] {
+						w.Feed(sg)
+					}
+					t1 := time.Now()
+					w.Feed(seg)
+					if time.Since(t1) <= 2*time.Second {
+						slow = false
+					}
+				}
+				if slow {
+					e.Oracle("c08-slow", "Parse took %v on %d bytes (and more than 2s in three re-runs)", d, len(seg))
+				}
 			}
 			e.P("> D %s badurl=%s badproto=%s okproto=%s", f[1], strings.Join(s.R.BadURL, ","), strings.Join(s.R.BadProto, ","), strings.Join(s.R.OkProto, ","))
 			s.R.OkProto = nil
